@@ -53,7 +53,7 @@ def interleave(rng, seqs):
 
 def workload(tier, rng):
     groups = []
-    ngroups = 700 if tier == "quick" else 6000
+    ngroups = 700 if tier == "quick" else 12000
     for g in range(ngroups):
         ns = rng.choice([2, 2, 3, 3, 4] if tier == "quick" else [2, 3, 4, 5, 8])
         small = rng.random() < 0.7
